@@ -16,9 +16,9 @@ All strings are opaque tokens (hex text produced by the harness); the model only
   val     `N` | `S<tok>` | `E<tok>` | `M<unit>:<-|h|x>:<k~v,…|.>:<obs;…|.>`
   obs     `u<dec>` | `f<16 hex>` | `r<16 hex>x<dec>`
   wrapper `B` | `Mo <item>…` | `Mg <item>…` | `mr <item>…` | `mg <item>…` | `D<n> <k~v>…` |
-          `W<n> <k~v>… / <name>…` | `Fh` | `Fx` | `r` | `X` | `A` | `Co` | `Cb` | `O` | `On` | `R` |
-          `Sg|Pg <item>…` | `Sd|Pd <k~v>… / <name>…` | `Sfh` | `Sfx`
-  vwrapper `r` | `x` | `a` | `co` | `cb` | `o` | `on` | `d<n> <k~v>…` | `fh` | `fx` | `t0` | `t1`
+          `W<n> <k~v>… / <name>…` | `Fh` | `Fx` | `Fn` (ForceFlag whose constructor yields empty flags) | `r` | `X` | `A` | `Co` | `Cb` | `O` | `On` | `R` |
+          `Sg|Pg <item>…` | `Sd|Pd <k~v>… / <name>…` | `Sfh` | `Sfx` | `Sfn`
+  vwrapper `r` | `x` | `a` | `co` | `cb` | `o` | `on` | `d<n> <k~v>…` | `fh` | `fx` | `fn` | `t0` | `t1`
 -/
 namespace Driver.Wrappers
 open _root_.Wrappers
@@ -107,8 +107,9 @@ def parseVWrapper (ts : List String) : Option VWrapper :=
   | ["cb"] => some .cow
   | ["o"] => some .optSome
   | ["on"] => some .optNone
-  | ["fh"] => some (.forceFlag .high)
-  | ["fx"] => some (.forceFlag .noMetric)
+  | ["fn"] => some (.forceFlag none)
+  | ["fh"] => some (.forceFlag (some .high))
+  | ["fx"] => some (.forceFlag (some .noMetric))
   | ["t0"] => some (.formatted .id)
   | ["t1"] => some (.formatted .count)
   | k :: r =>
@@ -158,8 +159,9 @@ def parseWrapper (ts : List String) : Option Wrapper :=
   | "Mg" :: r => (parseEnt r).map .mergeBefore
   | "mr" :: r => (parseEnt r).map .mergeRefAfter
   | "mg" :: r => (parseEnt r).map .mergeRefBefore
-  | ["Fh"] => some (.forceFlag .high)
-  | ["Fx"] => some (.forceFlag .noMetric)
+  | ["Fn"] => some (.forceFlag none)
+  | ["Fh"] => some (.forceFlag (some .high))
+  | ["Fx"] => some (.forceFlag (some .noMetric))
   | ["r"] => some .ref
   | ["X"] => some .box
   | ["A"] => some .arc
@@ -172,8 +174,9 @@ def parseWrapper (ts : List String) : Option Wrapper :=
   | "Pg" :: r => (parseEnt r).map .streamMergeGlobals
   | "Sd" :: r => (parseDimsDeny r).map fun (d, deny) => .streamGlobalDims d deny
   | "Pd" :: r => (parseDimsDeny r).map fun (d, deny) => .streamGlobalDims d deny
-  | ["Sfh"] => some (.streamForceFlag .high)
-  | ["Sfx"] => some (.streamForceFlag .noMetric)
+  | ["Sfn"] => some (.streamForceFlag none)
+  | ["Sfh"] => some (.streamForceFlag (some .high))
+  | ["Sfx"] => some (.streamForceFlag (some .noMetric))
   | k :: r =>
     match k.toList with
     | ['D', n] => if n.isDigit then (r.mapM parsePair).map .withDims else none
